@@ -97,6 +97,7 @@ public:
 	std::unordered_map<const void *, Loc> locs;
 	std::unordered_map<const void *, VClock> spinClocks;
 	std::vector<std::pair<const char *, const char *> > sharedRanges;
+	const char * ignoreTagPrefix = nullptr;   // hook points whose tag starts like this are not scheduling points (see harness/sheter.cpp)
 	bool raceDetection;
 
 	Sched() : active(false), aborting(false), cur(0), steps(0), progress(0), maxSteps(4000), horizonHit(false), preemptions(0), stateful(false), visitedA(nullptr), visitedB(nullptr), pruned(false), quiet(false), prunedCount(0), spuriousBudget(0), spuriousUsed(0), raceDetection(true) {}
@@ -601,6 +602,7 @@ extern "C" void eventpp_verif_point(const char * tag, const void * obj) {
 		else { s.spinClocks[obj].join(m->vc); m->vc.c[m->id]++; ++s.progress; }
 		return;
 	}
+	if(s.ignoreTagPrefix && strncmp(tag, s.ignoreTagPrefix, strlen(s.ignoreTagPrefix)) == 0) return;
 	s.point(tag);
 }
 extern "C" void eventpp_verif_spin(const char * tag, const void *) { verif::sched().spin(tag); }
